@@ -94,6 +94,8 @@ class FI:
                 return f"wrap_{f.wraps}"
             if f.wkt:
                 return f.wkt
+            if f.type == "enum" and f.enum:
+                return f"enum({f.enum.split('.')[-1]})"
             return f.type
 
         if self.card == "map":
